@@ -42,6 +42,11 @@ pub struct GraphSpec {
     /// when non-empty: node sequences (with extension bytes) added directly with BaseGraph::add
     #[serde(default)]
     pub direct_nodes: Vec<(Vec<u8>, u8)>,
+    /// when >= 2: the node list is split into this many BaseGraphs (round-robin when odd,
+    /// contiguous when even) which are then merged with `BaseGraph::combine` - the same node
+    /// set, but built through the combine code path and its storage layout
+    #[serde(default)]
+    pub combine_parts: usize,
 }
 
 /// Free-form node set: random substrings of the reads, terminal k-mers distinct per side.
@@ -101,11 +106,22 @@ pub fn gen_graph_spec(rng: &mut Rng, ktypes: &[&str], max_reads: usize, max_len:
         min_count: if rng.chance(1, 5) { 2 } else { 1 },
         reads,
         direct_nodes: Vec::new(),
+        combine_parts: if rng.chance(1, 4) { rng.range(2, 5) } else { 0 },
     }
 }
 
 pub fn shrink_graph_spec(g: &GraphSpec) -> Vec<GraphSpec> {
     let mut out = Vec::new();
+    if g.combine_parts >= 2 {
+        let mut x = g.clone();
+        x.combine_parts = 0;
+        out.push(x);
+        if g.combine_parts > 2 {
+            let mut y = g.clone();
+            y.combine_parts = 2;
+            out.push(y);
+        }
+    }
     if !g.direct_nodes.is_empty() {
         for i in 0..g.direct_nodes.len() {
             let mut x = g.clone();
